@@ -151,6 +151,7 @@ class StmtMixin:
                 if prop is not None and 'set' in prop and self.tree.attr_ctype(base.cls, tgt.attr) is None:
                     fv = FuncVal(ci.file, '%s.%s.setter' % (ci.name, tgt.attr), prop['set'], cls=ci.name)
                     if self.will_inline(fv, fr):
+                        self.wrapping_decorators(fv)
                         return self.inline_paths(fv, [base, v], {}, base.cls, st, fr, lambda s_, v_: None)
         outs = self.flush(st)
         for t in node.targets:
@@ -182,6 +183,10 @@ class StmtMixin:
             outs.append(('normal', st, None))
             return outs
         fv, args, kwargs, dyn_cls = target
+        if self.wrapping_decorators(fv):
+            # memoised callee: shared result object (see eng_call.memoised_result)
+            sink0 = sink
+            sink = lambda s_, v_: sink0(s_, self.memoised_result(fv, v_, args, kwargs, s_))
         return self.inline_paths(fv, args, kwargs, dyn_cls, st, fr, sink)
 
     def inline_paths(self, fv, args, kwargs, dyn_cls, st, fr, sink):
@@ -351,6 +356,11 @@ class StmtMixin:
             return
         if isinstance(target, ast.Subscript):
             base = self.ev(target.value, st, fr)
+            if isinstance(target.slice, ast.Slice) and isinstance(target.value, ast.Name) and isinstance(v, (list, tuple)) \
+                    and not isinstance(base, Obj) and target.slice.lower is None and target.slice.upper is None and target.slice.step is None:
+                # c_array[:] = [a, b, ...] on a C array LOCAL (e.g. npy_intp dims[2]): the local becomes that tuple of values
+                self.assign(target.value, tuple(v), st, fr)
+                return
             if isinstance(target.slice, ast.Slice):
                 # a[lo:hi] = b on a 1-D array: element-wise copy (the new contents are a lambda over the old ones: no quantifier needed)
                 sl = target.slice
@@ -385,6 +395,27 @@ class StmtMixin:
                     srcv = coerce(srcv, base.elem)
                 new = z3.Lambda([kk], z3.If(z3.And(kk >= lo, kk < hi), srcv, z3.Select(old, kk)))
                 st.heap[fid] = z3.Store(f, base.ref, new)
+                return
+            if isinstance(target.slice, ast.Tuple) and len(target.slice.elts) == 2 and isinstance(base, Obj) and base.kind == 'arr' and base.ndim == 2 \
+                    and base.view is None and not isinstance(target.slice.elts[0], ast.Slice) and isinstance(target.slice.elts[1], ast.Slice) \
+                    and not (target.slice.elts[1].lower or target.slice.elts[1].upper or target.slice.elts[1].step) \
+                    and isinstance(v, Obj) and v.kind == 'arr' and v.ndim == 1 and v.view is None:
+                # a[r, :] = b on a 2-D array with a 1-D source: row r becomes a copy of b (b of the row length), every other row is kept
+                r_ = to_int(self.ev(target.slice.elts[0], st, fr))
+                what = ast.unparse(target.value)
+                if not self.flag('skip_bounds') or what not in self.flag('skip_bounds'):
+                    self.emit(st, 'bounds.%s' % what, z3.And(r_ >= 0, r_ < self.arr_len(st, base, 0)), 'row index within the array')
+                self.emit(st, 'defined.slice.%s' % what, self.arr_len(st, v) == self.arr_len(st, base, 1), 'source as long as a row')
+                fid = self.arr_fid(base)
+                f = self.field(st, fid)
+                old = z3.Select(f, base.ref)
+                src = z3.Select(self.field(st, self.arr_fid(v)), v.ref)
+                self.counter += 1
+                rr, cc = z3.Int('r!sl%d' % self.counter), z3.Int('c!sl%d' % self.counter)
+                srcv = z3.Select(src, cc)
+                if v.elem != base.elem:
+                    srcv = coerce(srcv, base.elem)
+                st.heap[fid] = z3.Store(f, base.ref, z3.Lambda([rr, cc], z3.If(rr == r_, srcv, z3.Select(old, rr, cc))))
                 return
             if isinstance(target.slice, ast.Tuple) and any(isinstance(e, ast.Slice) for e in target.slice.elts):
                 # a[:, k] = v on an opaque array object: handed to the declared __setitem__ external with ':' for a full slice
@@ -572,6 +603,14 @@ class StmtMixin:
             if all(isinstance(x, int) for x in (lo, hi, stp)) and (spec is None or spec.get('unroll')):
                 if len(range(lo, hi, stp)) <= self.flag('unroll_limit', 64):
                     items = list(range(lo, hi, stp))
+            elif stp == 1 and spec is None and self.flag('unroll_symbolic_range'):
+                # range(e + a, e + b) with a symbolic start but a CONCRETE trip count (b - a): unrolled exactly, items e + a, e + a + 1, ...
+                try:
+                    n_ = z3.simplify(to_int(it.hi) - to_int(it.lo))
+                except Exception:
+                    n_ = None
+                if n_ is not None and z3.is_int_value(n_) and 0 <= n_.as_long() <= self.flag('unroll_limit', 64):
+                    items = [z3.simplify(to_int(it.lo) + k_) for k_ in range(n_.as_long())]
         elif isinstance(it, ZipVal) and all(isinstance(s, (tuple, list)) for s in it.seqs):
             items = list(zip(*it.seqs))
         elif isinstance(it, EnumVal) and isinstance(it.seq, (tuple, list)) and isinstance(concrete(it.start), int):
